@@ -70,7 +70,7 @@ def _watcher(W: World, ns, lp, wallet):
     return mw, mining
 
 
-def found_block(h: int, npool: int, exclude_known: bool = True, only_known: bool = False, twin: bool = False, real: bool = False):
+def found_block(h: int, npool: int, exclude_known: bool = True, only_known: bool = False, multi: bool = False, twin: bool = False, real: bool = False):
     W = World(real=real, networking=True, h=h, served_head="P")
     from symlib import nodeshell as ns
     dt, cons = W.dt, W.cons
@@ -104,7 +104,10 @@ def found_block(h: int, npool: int, exclude_known: bool = True, only_known: bool
         cm = lp.chain_manager
         cm.coinstate = state
         pool = []
-        if npool >= 1:
+        if npool >= 1 and multi:
+            # one pending transaction spending TWO outputs of the same earlier transaction (T10,0) and (T10,1): fee still f0
+            pool.append(W.make_tx(tok(TX, 40), [(0, 0, 0), (1, 1, 0)], [(v0 + 6 - f0, 1)], pv, tok(TX, 99), None))
+        elif npool >= 1:
             pool.append(W.make_tx(tok(TX, 40), [(0, 0, 0)], [(v0 - f0, 1)], pv, tok(TX, 99), None))   # ids as cached at decode time
         if npool >= 2:
             pool.append(W.make_tx(tok(TX, 41), [(2, 0, 0)], [(v2 - f1, 2)], pv, tok(TX, 99), None))
@@ -428,6 +431,11 @@ def obligations(tier: str, known: List[str]) -> List[Ob]:
                           {"h": h, "npool": npool, "exclude_known": excl}, timeout=T))
     t = twin_of(obs[0], timeout=300)
     obs.append(t)
+    # a pending transaction with several inputs drawn from ONE earlier transaction (payment + change spent together)
+    for h in ((2, HALVING) if thorough else (2,)):
+        for npool in ((1, 2) if thorough else (2,)):
+            obs.append(Ob("found-block[h=%d,pool=%d,two-inputs-from-one-transaction]" % (h, npool), C_REWARD + "; " + C_VALID, "found_block",
+                          {"h": h, "npool": npool, "exclude_known": excl, "multi": True}, timeout=T))
     obs.append(Ob("broadcast-reaches-every-active-peer", C_ADOPT, "broadcast_reaches_all", {}, timeout=T))
     obs.append(Ob("found-block-on-a-parent-that-is-no-longer-the-head", C_ADOPT, "stale_candidate", {}, timeout=T))
     obs.append(Ob("work-after-a-reorganisation-with-a-pending-transaction-of-the-losing-branch", C_VALID + "; " + C_ADOPT, "after_reorg", {}, timeout=T))
